@@ -198,16 +198,23 @@ def removeFirst (p : α → Bool) : List α → Option (List α)
   | [] => none
   | x :: xs => if p x then some xs else (removeFirst p xs).map (x :: ·)
 
-/-- undirected (exact): every expected edge is matched by a path of its own, and no path is left -/
-def matchExact (centre : Nat → Option Centre) : List (Nat × Nat) → List (Rat × Rat × Rat × Rat) → Bool
-  | [], paths => paths.isEmpty
+/-- undirected (exact): every expected edge is matched by a path of its own; the paths that are left -/
+def matchExactRest (centre : Nat → Option Centre) :
+    List (Nat × Nat) → List (Rat × Rat × Rat × Rat) → Option (List (Rat × Rat × Rat × Rat))
+  | [], paths => some paths
   | (i, j) :: es, paths =>
     match centre i, centre j with
     | some ci, some cj =>
       (match removeFirst (joins false ci cj) paths with
-       | some rest => matchExact centre es rest
-       | none => false)
-    | _, _ => false
+       | some rest => matchExactRest centre es rest
+       | none => none)
+    | _, _ => none
+
+/-- … and no path is left -/
+def matchExact (centre : Nat → Option Centre) (es : List (Nat × Nat)) (paths : List (Rat × Rat × Rat × Rat)) : Bool :=
+  match matchExactRest centre es paths with
+  | some rest => rest.isEmpty
+  | none => false
 
 /-- directed (the arrow stops at the rim of the target, so the end point is only near its centre): as many paths as
     expected edges, every expected edge has a path that joins its end nodes, every path joins the end nodes of an
@@ -224,32 +231,40 @@ def matchEdges (directed : Bool) (centre : Nat → Option Centre)
   if directed then matchNear centre es paths else matchExact centre es paths
 
 /-- `visualize_graph`: the edge paths are exactly the displayed edges, each joining the shapes (circle or pie) of its
-    end nodes.  Inconclusive (true) when a number cannot be read or an end node has no shape (`node_order` subset). -/
-def geomGraph (a : GraphArgs) (ps : List Piece) : Bool :=
-  if !a.displayEdges then true
+    end nodes; arrows on all of them or on none.  Edges with an end node that has no shape (`node_order` a subset) are
+    only counted.  `none` = inconclusive (a number cannot be read). -/
+def geomGraph (a : GraphArgs) (ps : List Piece) : Option Bool :=
+  if !a.displayEdges then some true
   else
     let body := dropDefs ps 0
     match shapeItems body, strokePathsOf body with
     | some items, some paths =>
       (match centresOf (specOrder a) (isPie a.probs) (ncolsOf a.probs) items with
-       | none => false                      -- the node shapes do not follow `node_order`
+       | none => some false                      -- the node shapes do not follow `node_order`
        | some cs =>
          let centre := fun i => (cs.find? (·.1 == i)).map (·.2)
          let expected := (((specEs a).filter fun e => shownSpec a e.1 e.2.1).map fun e => (e.1, e.2.1)) ++
            ((a.edgeLabels.filter fun l =>
               entryAt (specEs a) l.1.toNat l.2.1.toNat = 0 && shownSpec a l.1.toNat l.2.1.toNat).map
              fun l => (l.1.toNat, l.2.1.toNat))
+         let known := expected.filter fun e => (centre e.1).isSome && (centre e.2).isSome
          -- arrows (`marker-end`) on every edge path of a directed drawing, on none of an undirected one
          let arrows := countElems py!"path" (fun as => hasStroke as && (attrVal? as py!"marker-end").isSome) body
-         arrows == (if specDirected a then paths.length else 0) &&
-         (if expected.all (fun e => (centre e.1).isSome && (centre e.2).isSome) then
-           matchEdges (specDirected a) centre expected paths
-         else true))
-    | _, _ => true
+         some (arrows == (if specDirected a then paths.length else 0) &&
+           (if specDirected a then
+              (if known.length == expected.length then matchNear centre expected paths
+               else known.all fun e => paths.any fun p =>
+                 match centre e.1, centre e.2 with
+                 | some ci, some cj => joins true ci cj p
+                 | _, _ => false)
+            else match matchExactRest centre known paths with
+              | some rest => rest.length + known.length == expected.length
+              | none => false)))
+    | _, _ => none
 
 /-- `visualize_bigraph`: row shapes first, then column shapes (circles or pies) -/
-def geomBigraph (a : BigraphArgs) (ps : List Piece) : Bool :=
-  if !a.displayEdges then true
+def geomBigraph (a : BigraphArgs) (ps : List Piece) : Option Bool :=
+  if !a.displayEdges then some true
   else
     match shapeItems ps, strokePathsOf ps with
     | some items, some paths =>
@@ -263,9 +278,9 @@ def geomBigraph (a : BigraphArgs) (ps : List Piece) : Bool :=
          let expected := (es.map fun e => (e.1, a.nRow + e.2.1)) ++
            ((a.edgeLabels.filter fun l => entryAt es l.1.toNat l.2.1.toNat = 0).map
              fun l => (l.1.toNat, a.nRow + l.2.1.toNat))
-         matchExact centre expected paths
-       | _, _ => false)
-    | _, _ => true
+         some (matchExact centre expected paths)
+       | _, _ => some false)
+    | _, _ => none
 
 /-- two printed numbers are the same up to the rounding of a float64 computed from printed operands -/
 def closeTo (a b : Rat) : Bool :=
@@ -276,9 +291,9 @@ def closeTo (a b : Rat) : Bool :=
 /-- `visualize_dendrogram`: the three paths of merge `t` form a bracket — one leg from each child to the level of the
     merge and a bar joining the legs —; a leg starts where its child was drawn (a leaf on the base line, each leaf once
     and at a place of its own; an earlier merge at the middle of its bar). `top` = root on top (`rotate=False`). -/
-def geomDendro (a : DendroArgs) (ps : List Piece) : Bool :=
+def geomDendro (a : DendroArgs) (ps : List Piece) : Option Bool :=
   match strokePathsOf ps with
-  | none => true
+  | none => none
   | some paths =>
     let n := a.merges.length + 1
     let top := !a.rotate
@@ -307,8 +322,8 @@ def geomDendro (a : DendroArgs) (ps : List Piece) : Bool :=
             some ((n + t, mid.1, mid.2) :: nodes, leaves)
           else none
         | _, _, _ => none
-    paths.length == 3 * a.merges.length &&
-      ((List.range a.merges.length).foldl step (some ([], []))).isSome
+    some (paths.length == 3 * a.merges.length &&
+      ((List.range a.merges.length).foldl step (some ([], []))).isSome)
 
 /-- the whole observation of C20 on a returned string -/
 def docMeets (doc : PyStr) (e : Expected) : Bool :=
